@@ -184,12 +184,28 @@ func (tm *typesMap) nameOf(typs []types.Type) (string, bool) {
 			}
 		}
 	}
+	// Several entries can match by assignability (a named type and its underlying type).
+	// Prefer identical types and then the smallest name, so that the choice does not depend on map order.
+	best, found, bestIdentical := "", false, false
 	for name, ts := range tm.funcToTyps {
-		if eq(typs, ts) {
-			return name, true
+		if !eq(typs, ts) {
+			continue
+		}
+		id := identical(typs, ts)
+		if !found || (id && !bestIdentical) || (id == bestIdentical && name < best) {
+			best, found, bestIdentical = name, true, id
 		}
 	}
-	return "", false
+	return best, found
+}
+
+func identical(this, that []types.Type) bool {
+	for i, t := range this {
+		if !types.Identical(types.Default(t), types.Default(that[i])) {
+			return false
+		}
+	}
+	return true
 }
 
 func (tm *typesMap) Generating(typs ...types.Type) {
